@@ -30,6 +30,11 @@ CHECKS["C08"] = dict(text="TLC model-checks the implementation-shaped selector m
     "state after every fit of every chain (selection, stored data, score/distance tables, support) with the cold fit of the same request, "
     "tie-aware from the first tied decision; also prefix independence, FPS restart from a selected prefix, warm start on an unfitted selector.", ref="6/C08",
     tech="TLC-enumerated call histories replayed in the real selectors; TLC compares chain states with cold-fit states (history registers)")
+CHECKS["C15"] = dict(text="TLC verifies the metric laws (symmetry, zero exactly on images, invariance under integer image shifts, <= free-space distance, "
+    "<= half the cell diagonal, triangle inequality in squared form) exhaustively for the reference minimum-image function on all triples of lattice "
+    "points of {-2L..2L}^d; the implementation's outputs on integer points / cells (dyadic scales, points far outside the cell, exactly half a cell "
+    "apart, anisotropic cells, stacks of L L^T precisions, mismatched cell dimension) are then required by TLC to EQUAL that reference function exactly.", ref="6/C15",
+    tech="TLC exhaustive check of metric laws on the reference definition; exact TLC validation that recorded outputs equal the reference")
 NA = {}
 def main():
     props = [json.loads(l)["id"] for l in open(os.path.join(HERE, "properties.jsonl"))]
